@@ -132,6 +132,10 @@ class C06(Check):
                         yield dict(unit, types=types, restr=rk, ign=True, sf=1, H=H, D=D, reset=1)
                     if rk == 'none' and types in (None, [2]):
                         yield dict(unit, types=types, restr=rk, ign=False, sf=1, H=H, D=D, far=1)
+                    if rk == 'none' and types in (None, [0, 1]) and unit['b'] == 'heavy4' and n >= 2:
+                        # start and end are two conformations of ONE molecule type (equal by value, equal size): the
+                        # start is the fixed one
+                        yield dict(unit, types=types, restr=rk, ign=False, sf=1, H=H, D=D, same=1)
                     if types is None and rk in ('none', 'r00') and n < nb:
                         # the SMALLER molecule consists of hydrogens only (H2, beads called H1, H2, ...): legal, only the
                         # larger one needs an atom that takes part in the fit
@@ -169,6 +173,10 @@ class C06(Check):
             el = 'H' if case.get('ahyd') else 'C'
             A = molecule('MOLA', [(f'{el}{i + 1}', 'MOLA', 1) for i in range(n)], edges, pa)
             B = molecule('MOLB', [(nm, 'MOLB', 1) for nm in names], bedges, pb)
+            if case.get('same'):
+                pb = generic_points(n, seed, scale=0.4, tag=60 + n) + np.array([-0.2, 0.3, 0.1])
+                B = molecule('MOLA', [(f'{el}{i + 1}', 'MOLA', 1) for i in range(n)], edges, pb)
+                return A, B, edges, edges, acyc, acyc
             return A, B, edges, bedges, acyc, True
         if case['k'] == 'large':
             ea = getattr(en, case['fam'])(40)
